@@ -12,7 +12,9 @@ mod c10;
 mod c14;
 mod c14_glue;
 mod c08;
+mod c08_compose;
 mod c08_report;
+mod c09_e2e;
 mod c13;
 mod c11;
 mod c12;
